@@ -631,7 +631,7 @@ func (c *runA) crashInStabilise(b int) (reached bool) {
 	c.open()
 	latest, lerr := c.db.LoadLatestBlock()
 	must(lerr)
-	if latest.Hash() != blk.hash {
+	if latest.Hash() == c.blocks[c.stable].hash {
 		// The stable pointer had not moved yet when the process died (a tree that rewrites context.data
 		// before it moves the pointer). The block's accounts are in the write-ahead file already, so the
 		// store now presents them — and filters its persisted candidates by them — as the state of the
@@ -642,6 +642,21 @@ func (c *runA) crashInStabilise(b int) (reached bool) {
 		c.tags = append(c.tags, "crash-before-pointer-move")
 		return false
 	}
+	// several blocks are committed oldest first: the process died at the first one whose commit rewrites
+	// context.data, and that block is the stable one now
+	at := -1
+	for x := b; x != c.stable; x = c.blocks[x].parent {
+		if c.blocks[x].hash == latest.Hash() {
+			at = x
+		}
+	}
+	if at < 0 {
+		panic("harness: after the injected crash the stable block is not on the path that was being stabilised")
+	}
+	if at != b {
+		count("crash_at_an_earlier_block_of_the_stabilised_path", 1)
+	}
+	b = at
 	count("crash_after_stable_pointer_moved", 1)
 	c.markStable(b)
 	c.dropUnconfirmed()
